@@ -540,8 +540,14 @@ void CheckType::getErrorMessages(ErrorLogger *errorLogger, const Settings *setti
     c.tooBigSignedBitwiseShiftError(nullptr, 31, ValueFlow::Value(31));
     c.integerOverflowError(nullptr, ValueFlow::Value(1LL<<32));
     // TODO: integerOverflowCond
+    ValueFlow::Value safeOverflow(1LL<<32);
+    safeOverflow.safe = true;
+    c.integerOverflowError(nullptr, safeOverflow);
     c.signConversionError(nullptr, nullptr, false);
     // TODO: signConversionCond
+    ValueFlow::Value safeNegative(-1);
+    safeNegative.safe = true;
+    c.signConversionError(nullptr, &safeNegative, false);
     c.longCastAssignError(nullptr);
     c.longCastReturnError(nullptr);
     ValueFlow::Value f;
